@@ -64,7 +64,7 @@ func (in *Interp) policyCall(caller *frame, fn *ssa.Function, pkgPath string, ar
 	name := fn.String()
 	if isNoopPkg(pkgPath) {
 		in.res.StubsHit["noop:"+pkgPath]++
-		return in.zero(fn.Signature.Results()), true
+		return in.zeroNonNil(fn.Signature.Results()), true
 	}
 	switch pkgPath {
 	case "fmt":
@@ -1273,4 +1273,27 @@ func (in *Interp) hasMethod(t types.Type, name string) bool {
 		}
 	}
 	return false
+}
+
+// zeroNonNil: zero results, except that pointer results point to a fresh zero object (loggers, events).
+func (in *Interp) zeroNonNil(res *types.Tuple) value {
+	mk := func(t types.Type) value {
+		if p, ok := t.Underlying().(*types.Pointer); ok {
+			cell := new(value)
+			*cell = in.zero(p.Elem())
+			return cell
+		}
+		return in.zero(t)
+	}
+	switch res.Len() {
+	case 0:
+		return nil
+	case 1:
+		return mk(res.At(0).Type())
+	}
+	out := make(tuple, res.Len())
+	for i := range out {
+		out[i] = mk(res.At(i).Type())
+	}
+	return out
 }
